@@ -4,12 +4,14 @@ let artnet_op (args : string list) : string =
   | _ :: spec :: dgs ->
     let st0 = match String.split_on_char ',' spec with
       | net :: sub :: ou :: iu :: b :: rest ->
-        let ou2, b2 = (match rest with [_; o2; b2] -> (ios o2, b2) | _ -> (16, "none")) in
+        let ou2, b2 = (match rest with _ :: o2 :: b2 :: _ -> (ios o2, b2) | _ -> (16, "none")) in
         let net = ios net land 0x7f and sub = ios sub and ou = ios ou and iu = ios iu in
         { a_net = n_of_int net; a_oa = n_of_int (if ou >= 16 then 256 else ((sub lsl 4) lor (ou land 15)) land 255);
           a_ia = n_of_int (if iu >= 16 then 256 else ((sub lsl 4) lor (iu land 15)) land 255); a_buf = dbuf_of_s b; a_uids = [];
           a_sub = false; a_roc = true;
-          a_ob = n_of_int (if ou2 >= 16 then 256 else ((sub lsl 4) lor (ou2 land 15)) land 255); a_buf2 = dbuf_of_s b2 }
+          a_ob = n_of_int (if ou2 >= 16 then 256 else ((sub lsl 4) lor (ou2 land 15)) land 255); a_buf2 = dbuf_of_s b2;
+          a_from = n_of_int 2; a_ltp = (match rest with m :: _ -> m = "1" | [] -> false);
+          a_s0 = (None, None); a_s1 = (None, None) }
       | _ -> failwith "bad config" in
     let t = new_trace () in
     let st = ref st0 in
@@ -22,6 +24,12 @@ let artnet_op (args : string list) : string =
     let ev_c e = match e with
       | EvTx -> "poll" | EvData _ -> "dmx" | EvDisc _ -> "discover" | EvFlush _ -> "flush" | EvRdm _ -> "rdm" | EvTod _ -> "tod" in
     (try List.iter (fun dg ->
+      (* optional prefix s<k>. : the datagram comes from 10.0.0.(2+k) *)
+      let from, dg = (if String.length dg > 2 && dg.[0] = 's' then
+                        let i = String.index dg '.' in
+                        (2 + ios (String.sub dg 1 (i - 1)), String.sub dg (i + 1) (String.length dg - i - 1))
+                      else (2, dg)) in
+      st := { !st with a_from = n_of_int from };
       let buf, n = mkbuf (int_of_n aN_PACKET_SIZE) (bytes_of_hex dg) in
       match run buf (artnet_handle n !st) with
       | Hazard h -> t.hz <- hazard_s h; raise Exit
@@ -30,8 +38,11 @@ let artnet_op (args : string list) : string =
         st := st';
         t.cls <- (match evs with [] -> if changed then "state" else "drop"
                                 | [e] -> ev_c e | e :: _ -> ev_c e ^ "x" ^ string_of_int (List.length evs)) :: t.cls;
+        (* the harness lists the callbacks first, then the packets sent *)
+        let evs = List.filter (fun e -> e <> EvTx) evs @ List.filter (fun e -> e = EvTx) evs in
         let es = match evs with [] -> "-" | _ -> String.concat "+" (List.map ev_s evs) in
-        t.steps <- (Printf.sprintf "e:%s|b:%s|c:%s|s:%s|r:%s" es (dbuf_s st'.a_buf) (dbuf_s st'.a_buf2) (bool01 st'.a_sub) (bool01 st'.a_roc)) :: t.steps)
+        t.steps <- (Printf.sprintf "e:%s|b:%s|c:%s|s:%s|r:%s" es (dbuf_s st'.a_buf) (dbuf_s st'.a_buf2) (bool01 st'.a_sub) (bool01 st'.a_roc)) :: t.steps;
+        trace_out t (Printf.sprintf "e:%s|b:%s|c:%s" es (dbuf_s st'.a_buf) (dbuf_s st'.a_buf2)))
       dgs with Exit -> ());
     trace_result t "artnet"
   | _ -> "bad-args"
